@@ -36,9 +36,16 @@ static void find_targets (void)
 static int is_x86 (OrcTarget *t) { return !strcmp (t->name, "sse") || !strcmp (t->name, "avx") || !strcmp (t->name, "mmx"); }
 
 /* small emulation run of a compiled program on heap arrays; returns checksum */
+static uint64_t tiny_emulate_ex (OrcProgram *p, OrcExecutor *ex, int n);
 static uint64_t tiny_emulate (OrcProgram *p, int n)
 {
-  OrcExecutor *ex = orc_executor_new (p);
+  OrcExecutor *ex = orc_executor_new (p); uint64_t h = tiny_emulate_ex (p, ex, n);
+  orc_executor_free (ex);
+  return h;
+}
+/* emulation through a given program-attached executor (possibly created before the program was last compiled) */
+static uint64_t tiny_emulate_ex (OrcProgram *p, OrcExecutor *ex, int n)
+{
   static uint8_t bufs[ORC_N_VARIABLES][4096];
   uint64_t h = 1469598103934665603ULL; int i, j;
   orc_executor_set_n (ex, n);
@@ -58,7 +65,6 @@ static uint64_t tiny_emulate (OrcProgram *p, int n)
   for (i = 0; i < ORC_N_VARIABLES; i++) if (p->vars[i].size && p->vars[i].vartype == ORC_VAR_TYPE_DEST)
     for (j = 0; j < 4096; j++) h = (h ^ bufs[i][j]) * 1099511628211ULL;
   for (i = 0; i < 4; i++) h = (h ^ (uint32_t) ex->accumulators[i]) * 1099511628211ULL;
-  orc_executor_free (ex);
   return h;
 }
 
@@ -666,6 +672,46 @@ static void c15_one (ProgSpec *ps, long caseidx, VhRng *r)
     free (progs); if (errs) orc_parse_error_freev (errs);
     free (b.p);
   }
+  /* "an error-free parse never drops instructions": the plain rendering with one operand of one instruction replaced by a name
+   * nothing declares either reports an error or yields all the instructions (on a correct parser: always the former) */
+  if (ps->ninsns > 0) {
+    VhBuf b = { 0 }, m = { 0 }; OrcProgram **progs = NULL; int np = 0, ne = 0, i, q = (int) vh_randn (r, (uint32_t) ps->ninsns), opnd = (int) vh_randn (r, 3), nlines = 0, line = 0; OrcParseError **errs = NULL;
+    const char *c, *ls; int done = 0;
+    gen_print_orc (ps, &b, NULL, NULL);
+    for (c = b.p; *c; c++) if (*c == '\n') nlines++;
+    for (ls = c = b.p; *c; c++) if (*c == '\n') {
+      if (line == nlines - ps->ninsns + q) {
+        /* tokens: [xN] mnemonic op1, op2, ... : replace operand number opnd (or the last one there is) */
+        const char *t = ls, *e = c; int tok = 0, want;
+        if (t[0] == 'x' && (t[1] == '2' || t[1] == '4') && t[2] == ' ') t += 3;
+        while (t < e && *t != ' ') t++;
+        vh_buf_printf (&m, "%.*s", (int) (t - ls), ls);
+        { int nops = 1; const char *u; for (u = t; u < e; u++) if (*u == ',') nops++; want = opnd < nops ? opnd : nops - 1; }
+        while (t < e) {
+          const char *u = t; while (u < e && *u != ',') u++;
+          if (tok == want) { vh_buf_printf (&m, " zz9"); done = 1; } else vh_buf_printf (&m, "%.*s", (int) (u - t), t);
+          if (u < e) vh_buf_printf (&m, ",");
+          t = u < e ? u + 1 : e; tok++;
+        }
+        vh_buf_printf (&m, "\n");
+      } else vh_buf_printf (&m, "%.*s\n", (int) (c - ls), ls);
+      ls = c + 1; line++;
+    }
+    if (done) {
+      orc_parse_code (m.p, &progs, &np, &errs, &ne);
+      vh_count ("c15.undeclared_operand_texts", 1);
+      if (ne > 0) vh_count ("c15.undeclared_operand_reported", 1);
+      else if (np != 1 || progs[0]->n_insns != ps->ninsns) {
+        VhBuf eb = { 0 };
+        snprintf (what, sizeof what, "a text whose instruction %d names an undeclared operand parsed without any error, yet the program has %d of the %d instructions", q, np == 1 ? progs[0]->n_insns : -1, ps->ninsns);
+        vh_buf_jstr (&eb, m.p);
+        spec_viol ("C15", "c15", "error-free-parse-dropped-instruction", what, ps, caseidx, eb.p); free (eb.p);
+      }
+      for (i = 0; i < np; i++) orc_program_free (progs[i]);
+      free (progs); if (errs) orc_parse_error_freev (errs);
+    }
+    free (b.p); free (m.p);
+  }
   orc_bytecode_free (bc_api);
   orc_program_free (api);
 }
@@ -700,9 +746,10 @@ static void c16_sequence (VhRng *r, long caseidx, int steps)
 {
   /* ownership model: prog (may be NULL), code objects taken (list) */
   OrcProgram *p = NULL; OrcCode *codes[8]; int ncodes = 0, s; ProgSpec ps; int have_spec = 0, compiled = 0;
+  OrcExecutor *pex = NULL;   /* a program-attached executor that lives as long as the program object, across compiles and resets */
   OrcTarget *tg[4] = { orc_target_get_by_name ("sse"), orc_target_get_by_name ("avx"), orc_target_get_by_name ("c"), orc_target_get_by_name ("neon") };
   for (s = 0; s < steps; s++) {
-    int op = (int) vh_randn (r, 12);
+    int op = (int) vh_randn (r, 15);
     vh_set_addf ("c16.ops", "%d", op);
     switch (op) {
       case 0: case 1:
@@ -724,8 +771,27 @@ static void c16_sequence (VhRng *r, long caseidx, int steps)
         if (p && compiled) { tiny_emulate (p, 9); vh_count ("c16.emulate", 1); }
         break;
       case 7:
-        if (p) { orc_program_free (p); p = NULL; compiled = 0; vh_count ("c16.free_program", 1); }
+        if (p) { if (pex) { orc_executor_free (pex); pex = NULL; } orc_program_free (p); p = NULL; compiled = 0; vh_count ("c16.free_program", 1); }
         break;
+      case 12:
+        if (p && !pex) { pex = orc_executor_new (p); vh_count ("c16.attached_executor_new", 1); }
+        break;
+      case 13:
+        if (p && pex && compiled) { tiny_emulate_ex (p, pex, 9); vh_count ("c16.emulate_through_kept_executor", 1); }
+        break;
+      case 14: {
+        /* a program with more than one thing wrong (too many sources, too many temporaries, an unknown operand): compile fails, reset, free */
+        OrcProgram *bad = orc_program_new (); int k; char nm[16];
+        orc_program_add_destination (bad, 2, "d1");
+        for (k = 0; k < 8 + (int) vh_randn (r, 3); k++) { snprintf (nm, sizeof nm, "s%d", k + 1); orc_program_add_source (bad, 2, nm); }
+        for (k = 0; k < 15 + (int) vh_randn (r, 5); k++) { snprintf (nm, sizeof nm, "t%d", k + 1); orc_program_add_temporary (bad, 2, nm); }
+        orc_program_append_str (bad, "addw", "d1", "s1", "s2");
+        if (vh_chance (r, 1, 2)) orc_program_append_str (bad, "addw", "d1", "nosuch", "s2");
+        (void) orc_program_compile (bad);
+        if (vh_chance (r, 1, 2)) { orc_program_reset (bad); (void) orc_program_compile_for_target (bad, tg[vh_randn (r, 4)]); }
+        orc_program_free (bad);
+        vh_count ("c16.multi_error_program", 1);
+        break; }
       case 8:
         if (ncodes) { int k = (int) vh_randn (r, ncodes); orc_code_free (codes[k]); codes[k] = codes[--ncodes]; vh_count ("c16.free_code", 1); }
         break;
@@ -753,6 +819,7 @@ static void c16_sequence (VhRng *r, long caseidx, int steps)
         break;
     }
   }
+  if (pex) orc_executor_free (pex);
   if (p) orc_program_free (p);
   while (ncodes) orc_code_free (codes[--ncodes]);
 }
@@ -879,7 +946,7 @@ static void c17_one (ProgSpec *ps, long caseidx, VhRng *r)
   for (ti = 0; ti < n_all_targets; ti++) {
     OrcTarget *t = all_targets[ti]; unsigned flags = orc_target_get_default_flags (t);
     OrcProgram *p1 = gen_build (ps), *p2; Snap a, b, c; OrcCompileResult res; char what[200];
-    OrcProgram *pin[3]; int npin = 0, k;
+    OrcProgram *pin[4]; int npin = 0, k;
     res = orc_program_compile_full (p1, t, flags); snap_take (&a, p1, res);
     /* other history: pin some code memory so the next result lands elsewhere */
     c17_history (r);
@@ -892,7 +959,8 @@ static void c17_one (ProgSpec *ps, long caseidx, VhRng *r)
       char sg[120]; snprintf (sg, sizeof sg, "history|%s|%s", t->name, strstr (what, "listing") ? "listing" : strstr (what, "bytes") ? "bytes" : strstr (what, "size") ? "size" : "result");
       spec_viol ("C17", "c17", sg, what, ps, caseidx, NULL);
     }
-    /* reset + recompile */
+    /* reset + recompile; a program compiled in between bounds p2's chunk so that the recompile is an exact-fit reuse of it */
+    { ProgSpec q; gen_init (&q, "fence"); if (npin < 4 && gen_random (&q, r, GP_INT, 1 + (int) vh_randn (r, 3))) { pin[npin] = gen_build (&q); orc_program_compile_for_target (pin[npin], orc_target_get_by_name ("sse")); npin++; } }
     orc_program_reset (p2);
     res = orc_program_compile_full (p2, t, flags); snap_take (&c, p2, res);
     if (!snap_equal (&a, &c, what, sizeof what)) {
@@ -920,6 +988,55 @@ static void c17_one (ProgSpec *ps, long caseidx, VhRng *r)
       }
     }
 no_repeat:
+    /* the code of a program stays what it was when later compiles take memory next to (or, after an exact-fit reuse, at) its chunk */
+    if (c.code && p2->orccode) {
+      ProgSpec q; OrcProgram *late[2]; int nl = 0; Snap d;
+      for (k = 0; k < 2; k++) { gen_init (&q, "late"); if (gen_random (&q, r, GP_INT, 1 + (int) vh_randn (r, 3))) { late[nl] = gen_build (&q); orc_program_compile_for_target (late[nl], orc_target_get_by_name ("sse")); nl++; } }
+      snap_take (&d, p2, res);
+      vh_count ("c17.late_rechecks", 1);
+      if (!snap_equal (&c, &d, what, sizeof what)) {
+        char sg[120]; snprintf (sg, sizeof sg, "changed-after-later-compiles|%s", t->name);
+        spec_viol ("C17", "c17", sg, what, ps, caseidx, NULL);
+      }
+      snap_free (&d);
+      while (nl) orc_program_free (late[--nl]);
+    }
+    /* what the program object was compiled for before must not matter: compiled for sse first, then (same object) for this target, then
+     * an unrelated compile that may reuse the memory the first code occupied; result class, bytes and what running it computes must be
+     * those of a fresh object */
+    if (strcmp (t->name, "sse") && !program_uses_special_or_big (ps)) {
+      int hinted = 0, vi; for (vi = 0; vi < ps->nvars; vi++) if (ps->vars[vi].align > ps->vars[vi].size) hinted = 1;
+      if (!hinted && !ps->n_mult && !ps->n_min && !ps->n_max && !ps->const_n) {
+        OrcProgram *p3 = gen_build (ps); OrcCompileResult r1 = orc_program_compile_full (p3, orc_target_get_by_name ("sse"), orc_target_get_default_flags (orc_target_get_by_name ("sse")));
+        if (ORC_COMPILE_RESULT_IS_SUCCESSFUL (r1)) {
+          OrcCompileResult r3 = orc_program_compile_full (p3, t, flags); Snap e; ProgSpec q; OrcProgram *other = NULL;
+          snap_take (&e, p3, r3);
+          vh_count ("c17.recompiled_objects", 1);
+          if (!snap_equal (&a, &e, what, sizeof what)) {
+            char sg[120]; snprintf (sg, sizeof sg, "object-history|%s", t->name);
+            spec_viol ("C17", "c17", sg, what, ps, caseidx, NULL);
+          }
+          gen_init (&q, "other");
+          { int oi = gen_op_index ("xorb"); PInsn *in = gen_add_insn (&q, oi, 1); in->dest[0] = gen_add_var (&q, VK_DEST, 1); in->src[0] = gen_add_var (&q, VK_SRC, 1); in->src[1] = gen_add_var (&q, VK_SRC, 1); }
+          other = gen_build (&q); orc_program_compile_for_target (other, orc_target_get_by_name ("sse"));
+          if (!ORC_COMPILE_RESULT_IS_FATAL (r3) && !ORC_COMPILE_RESULT_IS_FATAL (a.res) && (is_x86 (t) ? 1 : !ORC_COMPILE_RESULT_IS_SUCCESSFUL (r3))) {
+            /* runnable here: native x86 code, or the emulation fall-back of a target that produced nothing executable */
+            OrcExecutor *e1 = orc_executor_new (p1), *e3 = orc_executor_new (p3); uint64_t h1, h3;
+            h1 = tiny_native (p1, e1, 7, 0); h3 = tiny_native (p3, e3, 7, 0);
+            orc_executor_free (e1); orc_executor_free (e3);
+            vh_count ("c17.recompiled_objects_run", 1);
+            if (h1 != h3) {
+              char sg[120]; snprintf (sg, sizeof sg, "object-history-run|%s", t->name);
+              snprintf (what, sizeof what, "a program object compiled for sse and then for %s computes something else than a fresh object compiled for %s (checksums %016llx vs %016llx)", t->name, t->name, (unsigned long long) h3, (unsigned long long) h1);
+              spec_viol ("C17", "c17", sg, what, ps, caseidx, NULL);
+            }
+          }
+          orc_program_free (other);
+          snap_free (&e);
+        }
+        orc_program_free (p3);
+      }
+    }
     vh_countf (1, "c17.target.%s", t->name);
     snap_free (&a); snap_free (&b); snap_free (&c);
     orc_program_free (p1); orc_program_free (p2);
@@ -1019,11 +1136,15 @@ static void shape_rule_sumdiff (OrcCompiler *p, void *user, OrcInstruction *insn
   orc_sse_emit_movdqa (p, tmp, d2);
 }
 
+static void shape_emu_addlw (OrcOpcodeExecutor *ex, int offset, int n) { int i; orc_int32 *d = ex->dest_ptrs[0]; const orc_int32 *a = ex->src_ptrs[0]; const orc_int16 *b = ex->src_ptrs[1]; (void) offset; for (i = 0; i < n; i++) d[i] = a[i] + b[i]; }
+
 static void c20_shapes (long scen, OrcTarget *sse)
 {
-  static OrcStaticOpcode shp[3]; OrcOpcodeSet *os; OrcRuleSet *rs; int which; char what[300];
+  static OrcStaticOpcode shp[4]; OrcOpcodeSet *os; OrcRuleSet *rs; int which; char what[300];
   memset (shp, 0, sizeof shp);
   snprintf (shp[0].name, sizeof shp[0].name, "mac3w"); shp[0].dest_size[0] = 2; shp[0].src_size[0] = 2; shp[0].src_size[1] = 2; shp[0].src_size[2] = 2; shp[0].emulateN = shape_emu_mac3;
+  /* sources of different sizes (as volscale's mulhslw would have); the narrow one is fed from a parameter and from a constant below */
+  snprintf (shp[2].name, sizeof shp[2].name, "addlw"); shp[2].dest_size[0] = 4; shp[2].src_size[0] = 4; shp[2].src_size[1] = 2; shp[2].emulateN = shape_emu_addlw;
   snprintf (shp[1].name, sizeof shp[1].name, "sumdiffw"); shp[1].dest_size[0] = 2; shp[1].dest_size[1] = 2; shp[1].src_size[0] = 2; shp[1].src_size[1] = 2; shp[1].emulateN = shape_emu_sumdiff;
   if (!orc_opcode_register_static (shp, "shape")) { spec_viol ("C20", "c20", "register-failed", "orc_opcode_register_static returned 0 for the shape set", NULL, scen, NULL); return; }
   os = orc_opcode_set_get ("shape");
@@ -1057,6 +1178,31 @@ static void c20_shapes (long scen, OrcTarget *sse)
       for (i = 0; i < n && !bad; i++) if (n1[i] != d1[i] || n2[i] != d2[i]) { snprintf (what, sizeof what, "application opcode %s, element %d: native (%d,%d), emulated (%d,%d)", which ? "sumdiffw" : "mac3w", i, n1[i], n2[i], d1[i], d2[i]); spec_viol ("C20", "c20", which ? "shape-2d2s-native" : "shape-3src-native", what, NULL, scen, NULL); bad = 1; }
       vh_count ("c20.shape_native_runs", 1);
     } else if (rs) { snprintf (what, sizeof what, "application opcode %s has an sse rule without flag requirements but the program did not compile natively (result %#x)", which ? "sumdiffw" : "mac3w", res); spec_viol ("C20", "c20", "shape-rule-not-used", what, NULL, scen, NULL); }
+    orc_executor_free (ex); orc_program_free (p);
+  }
+  for (which = 0; which < 3; which++) {
+    /* addlw d1, s1, <16-bit scalar>: the scalar is a parameter, a constant, or (control) an array */
+    OrcProgram *p = orc_program_new (); OrcCompileResult res; OrcExecutor *ex; static orc_int32 a[64], d[64]; static orc_int16 b[64]; int i, n = 45, sc = -1234;
+    int v_d1 = orc_program_add_destination (p, 4, "d1"), v_s1 = orc_program_add_source (p, 4, "s1"), v_x;
+    v_x = which == 0 ? orc_program_add_parameter (p, 2, "p1") : which == 1 ? orc_program_add_constant (p, 2, sc, "c1") : orc_program_add_source (p, 2, "s2");
+    orc_program_set_name (p, "shape_addlw");
+    orc_program_append (p, "addlw", v_d1, v_s1, v_x);
+    res = orc_program_compile_for_target (p, sse);
+    vh_count ("c20.shape_programs", 1);
+    if (ORC_COMPILE_RESULT_IS_FATAL (res) || !p->orccode) {
+      snprintf (what, sizeof what, "a program using the application opcode addlw (sources of 4 and 2 bytes) cannot be compiled or emulated: result %#x, %s", res, orc_program_get_error (p) ? orc_program_get_error (p) : "");
+      spec_viol ("C20", "c20", "shape-mixed-sizes-rejected", what, NULL, scen, NULL);
+      orc_program_free (p); continue;
+    }
+    for (i = 0; i < 64; i++) { a[i] = i * 100003 - 70000; b[i] = (orc_int16) sc; d[i] = 0x5a5a5a5a; }
+    ex = orc_executor_new (p); orc_executor_set_n (ex, n);
+    orc_executor_set_array (ex, v_s1, a); orc_executor_set_array (ex, v_d1, d);
+    if (which == 0) orc_executor_set_param (ex, v_x, sc); else if (which == 2) orc_executor_set_array (ex, v_x, b);
+    orc_executor_emulate (ex);
+    for (i = 0; i < n; i++) if (d[i] != a[i] + sc) {
+      snprintf (what, sizeof what, "application opcode addlw with a 2-byte %s as its second source, element %d: emulated %d, expected %d", which == 0 ? "parameter" : which == 1 ? "constant" : "array", i, d[i], a[i] + sc);
+      spec_viol ("C20", "c20", which == 0 ? "shape-mixed-sizes-param" : which == 1 ? "shape-mixed-sizes-const" : "shape-mixed-sizes-array", what, NULL, scen, NULL); break;
+    }
     orc_executor_free (ex); orc_program_free (p);
   }
 }
